@@ -338,4 +338,4 @@ def cases(draw):
 
 
 def parts(ctx):
-    return [Part('stubs', run, strategy=cases(), n=ctx.n(500, 8000), budget_s=ctx.n(150, 3000))]
+    return [Part('stubs', run, strategy=cases(), n=ctx.n(700, 8000), budget_s=ctx.n(150, 3000))]
